@@ -265,11 +265,43 @@ def scen_clear_inside_is_set(ctx):
     return bad
 
 
+def scen_timeouts_then_notify(ctx):
+    """k timed waits expire with no notify in between, then one thread waits and notify() is called: it is woken"""
+    bad = []
+    for k in (1, 2, 3):
+        cond = ctx.Condition()
+        for _ in range(k):
+            with cond:
+                if cond.wait(0.01):
+                    bad.append('a timed wait with nobody notifying returned True')
+        res = []
+
+        def waiter():
+            with cond:
+                res.append(cond.wait(3))
+        t = threading.Thread(target=waiter, daemon=True)
+        t.start()
+        t0 = time.monotonic()
+        while time.monotonic() - t0 < 3:
+            with cond:
+                if cond._sleeping_count._semlock._get_value() - cond._woken_count._semlock._get_value() == 1:
+                    break
+            time.sleep(0.01)
+        time.sleep(0.2)          # the waiter is blocked on the wait semaphore by now
+        with cond:
+            cond.notify()
+        t.join(5)
+        if res != [True]:
+            bad.append('after %d expired timed waits, the only waiter was not woken by notify(): %r (sleeping %d, woken %d)' % (
+                k, res, cond._sleeping_count._semlock._get_value(), cond._woken_count._semlock._get_value()))
+    return bad
+
+
 def main():
     data = json.load(open(sys.argv[1]))
     print('replay of %s / %s' % (data['function'], data['obligation']))
     ctx = billiard.get_context()
-    bad = scen_event(ctx) + scen_condition(ctx) + scen_timeouts_inside_notify(ctx) + scen_announce_under_lock(ctx) + scen_clear_inside_is_set(ctx)
+    bad = scen_event(ctx) + scen_condition(ctx) + scen_timeouts_inside_notify(ctx) + scen_announce_under_lock(ctx) + scen_clear_inside_is_set(ctx) + scen_timeouts_then_notify(ctx)
     for b in bad[:8]:
         print('  violation on real code: ' + b)
     print('REPRODUCED on real code' if bad else 'not reproduced')
